@@ -45,7 +45,8 @@ ASSUMPTIONS = ['titles are free of reStructuredText markup and wide '
                'result is lost or duplicated']
 SHARD_TIMEOUT = {'quick': 900, 'thorough': 3000}
 PLAIN = ['Alpha', 'Beta', 'Gamma', 'Spectrum E', 'k-eff', 'Série', 'v1.2',
-         'Results', 'A', 'B']
+         'Results', 'A', 'B', 'v1', 'v1.0', 'k.eff', 'k.inf', 'Release 1.0',
+         'Release 1.5', 'index.x', 'A.rst']
 RESERVED = ['index', 'conf', 'conf.py', 'figures', '.static', '.templates',
             'index.rst', 'Contents']
 UNUSABLE = ['', '.', '..', 'a/b', 'nul\0x', '/abs']
@@ -164,6 +165,26 @@ def page_path(chain):
     if not chain:
         return 'index.rst'
     return os.path.join(*chain) + '.rst'
+
+
+def collisions(tree):
+    '''Which page collisions the titles of `tree` really have: 'same-page'
+    (two different sections, the root included, with the same page path) and
+    'page-is-directory' (the page, or another file of the report, of one
+    section is the directory of the sub-sections of another one).'''
+    chains = {chain for chain, _ in walk(tree)}
+    pages = {}
+    for chain in chains:
+        pages.setdefault(page_path(chain), set()).add(chain)
+    out = set()
+    if any(len(v) > 1 for v in pages.values()):
+        out.add('same-page')
+    files = set(pages) | {'conf.py', os.path.join('.static', 'valjean.css')}
+    for chain in chains:
+        for upto in range(1, len(chain)):
+            if os.path.join(*chain[:upto]) in files:
+                out.add('page-is-directory')
+    return out
 
 
 def check_written(tree, target, rec, case, with_plots):
@@ -361,6 +382,9 @@ def run_case(seed, idx, tier, rec):
                 why = ('same-page' if 'same page' in msg
                        else 'page-is-directory' if 'directory' in msg
                        else 'other')
+                if why != 'other' and why not in collisions(tree):
+                    # refused for a collision that the titles do not have
+                    why = 'other'
                 if why == 'other':
                     # the only legitimate refusals of a tree with usable
                     # titles and <= 5 levels are page collisions
@@ -379,6 +403,32 @@ def run_case(seed, idx, tier, rec):
             return
         rec.count('reports_written')
         check_written(tree, target, rec, case, with_plots)
+        if idx % 3 == 0:
+            # the same formatted report written once more, somewhere else
+            again = os.path.join(work, 'again', 'report')
+            try:
+                fmt.write(again)
+            except Exception as err:  # pylint: disable=broad-except
+                rec.violation(f'second-write-raised-{type(err).__name__}',
+                              repr(err), case)
+            else:
+                rec.count('reports_written_twice')
+                first = {k[len('report' + os.sep):]: v
+                         for k, v in listing(work).items()
+                         if k.startswith('report' + os.sep)}
+                second = listing(again)
+                first.pop('old.txt', None)
+                if set(first) != set(second):
+                    rec.violation('second-write-differs-from-the-first',
+                                  'files only in one of the two copies: '
+                                  f'{sorted(set(first) ^ set(second))[:8]}',
+                                  case)
+                else:
+                    diff = [k for k in first if first[k] != second[k]
+                            and k.endswith('.rst')]
+                    if diff:
+                        rec.violation('second-write-differs-from-the-first',
+                                      f'pages differ: {diff[:6]}', case)
         titles = [n['title'] for _, n in walk(tree)]
         rec.seen((depth_of(tree), len(titles),
                   sorted(t for t in titles if t in RESERVED),
